@@ -146,6 +146,20 @@ def check_surface(case, ctx):
     ctx.check(len(g2) == nu and all(len(r) == nv for r in g2) and
               all(close(list(g2[i][j]), hom(P, W, (i, j), rational)) for i in range(nu) for j in range(nv)),
               'route/ctrlpts2d-get', 'ctrlpts2d[i][j] is not the control point (u=i, v=j)', what='ctrlpts2d')
+    # the sizes re-declared on a surface that has its points (the same flat list read as another layout nv x nu; degrees permitting): the
+    # 2-D view follows the declared sizes, as the evaluator and every other module do
+    s5 = copy.deepcopy(s1)
+    dg5 = G.degrees_of(s5)
+    if nv >= dg5[0] + 1 and nu >= dg5[1] + 1 and nu != nv:
+        from geomdl import knotvector as _KV
+        s5.ctrlpts_size_u, s5.ctrlpts_size_v = nv, nu
+        s5.knotvector_u, s5.knotvector_v = _KV.generate(dg5[0], nv), _KV.generate(dg5[1], nu)
+        ctx.tag('sizes-redeclared')
+        g5 = s5.ctrlpts2d
+        fl5 = [list(p_) for p_ in (s5.ctrlptsw if rational else s5.ctrlpts)]
+        ok5 = len(g5) == nv and all(len(r_) == nu for r_ in g5) and all(close(list(g5[i][j]), fl5[j + nu * i]) for i in range(nv) for j in range(nu))
+        ctx.check(ok5, 'route/ctrlpts2d-stale-after-size-setters', 'after ctrlpts_size_u, ctrlpts_size_v = %d, %d on a %d x %d surface the 2-D view is %d x %s '
+                  'and not flat[v + size_v * u]' % (nv, nu, nu, nv, len(g5), sorted(set(len(r_) for r_ in g5))), what='ctrlpts2d')
     # route 2: ctrlpts2d setter
     s2 = new()
     s2.ctrlpts2d = [[hom(P, W, (i, j), rational) for j in range(nv)] for i in range(nu)]
